@@ -422,11 +422,15 @@ class Session(object):
         for name in EVALS + ("ode",):
             N = vals[name]
             O = st["oracle"][name].reshape(N.shape)
+            # absolute floors are relative to the size of the object: an entry that is an exact cancellation of terms of
+            # size 1e7 (a death of magnitude C and a transfer of magnitude 2x - var with C = 2x - var) comes out as
+            # rounding noise ~1e-9, not as 0 (false alarm of seed 7 after the wide magnitudes were introduced)
+            scale = max(1.0, float(np.max(np.abs(O))) if O.size else 1.0)
             if not kind:
                 L = st["lean"][name].reshape(N.shape)
-                if not mat_close(N, L, rel=1e-9, abs_=1e-10):
+                if not mat_close(N, L, rel=1e-9, abs_=1e-10 * scale):
                     self.mism.append({"what": name + "(x,t)", "detail": "python %s lean %s at %s" % (N.tolist(), L.tolist(), pt)})
-            if not mat_close(N, O, rel=TOL[name], abs_=TOL[name]):
+            if not mat_close(N, O, rel=TOL[name], abs_=TOL[name] * scale):
                 sgn = ("kept:" if kind else ("history:" if label in HISTORY_LABELS else "")) + ("%s:not-derivative" % name if name != "ode" else "ode:not-rhs")
                 self.viol.append({"what": pre + "%s(x,t) is not the derivative / definition (finite-difference oracle)" % name,
                                   "signature": sgn, "evaluator": name, "detail": "got %s expected %s at %s" % (N.tolist(), O.tolist(), pt)})
